@@ -145,6 +145,15 @@ class Repo:
                     canonicalise(mod.tree)
                     ast.fix_missing_locations(mod.tree)
                     mod.link_parents()
+                if not os.environ.get("OSACA_SA_NO_SHAPES"):
+                    # once more after the expansion: a recorded local may have become recognisable (E14b), or the constant
+                    # it named is now written in place
+                    again = undo_renames(self)
+                    if again:
+                        self.renamed_back = list(self.renamed_back) + again
+                        for mod in self.modules.values():
+                            ast.fix_missing_locations(mod.tree)
+                            mod.link_parents()
 
     def _index(self, mod):
         for node in mod.tree.body:
